@@ -29,6 +29,15 @@ THEOREMS = [
     "C03_forward_checked",
     "C03_refusal_kind",
     "C03_activate_witness",
+    "C03_roundtrip_failed_noop",
+    "C03_roundtrip_static",
+    "C03_roundtrip_no_invention",
+    "C03_roundtrip_marker",
+    "C03_roundtrip_values",
+    "C03_roundtrip_keeps_order",
+    "C03_roundtrip_gate",
+    "C03_roundtrip_reverses_witness",
+    "C03_second_marker_witness",
 ]
 RULE = (
     "family `prod`: the full product of 0-4 connections x every connection order x every upstream state "
@@ -38,16 +47,29 @@ RULE = (
     "positional, keyword / positional at run, value_receiver link, copy_io soft / hard, macro M3 / MU / MM by value, "
     "attribute and fetch) x strictness on both sides x upstream state, exhaustive; family `rand`: seeded random "
     "histories incl. disconnect / reconnect, flags, strict toggles, receiver chains and cycles; family `bad`: "
-    "malformed operations. non-trivial = the case reached at least one run that got past set_input_values or one "
-    "accepted assignment; distinct by canonical case"
+    "malformed operations; family `rt`: 0-3 connections x every order x every upstream state x own value state x "
+    "position of a pickle round trip of the whole graph in the history (first / between wiring / just before the run / "
+    "between two runs / twice / around macro forwarding) x pickle | cloudpickle x a never-set input (13248 points, "
+    "sampled); family `adv`: 27 adversarial values x 2 consumers (int/str/-, float/list/-) x each input x 11 delivery "
+    "paths x strict on/off x {no round trip, graph round trip, node round trip} (10206 points, thorough: all); family "
+    "`randrt`: random histories over plain and adversarial values with round trips of the graph (nodes in a workflow) "
+    "or of single top-level nodes at any point. non-trivial = the case reached at least one run that got past "
+    "set_input_values, one accepted assignment or one successful round trip; distinct by canonical case"
 )
 TRUSTED = [
-    "model Data.setVal / fetch1 / runNode transcribe DataChannel.value.setter, InputData.fetch, Node.run (default "
-    "flags, no executor, cache off); validated in lock-step on the explored cases only",
-    "whether a hint accepts a value is computed by the harness with plain isinstance on the declared hints and fed to "
-    "the model as `reject` lines (valid_value on exotic hints is C04's subject)",
+    "model Data.setVal / fetch1 / runNode / roundTrip transcribe DataChannel.value.setter, InputData.fetch, Node.run "
+    "(default flags, no executor, cache off) and __getstate__ / __setstate__ of channels, composites and macros; "
+    "validated in lock-step on the explored cases only",
+    "whether a hint accepts a value is computed by the harness WITHOUT the library (instance-of on the type of the "
+    "object; a real pint quantity - and nothing else - is judged by its magnitude) and fed to the model as `reject` "
+    "lines; the same verdict is the oracle's (valid_value on subscripted hints is C04's subject)",
     "the oracle is a plain-python reading of the property text (most recent effective connection holding data wins, "
-    "gate, clean refusal, typed stores) that keeps its own connection time stamps from the observed *sets* of partners",
+    "gate, clean refusal, typed stores, a round trip invents no value) that keeps its own connection time stamps from "
+    "the observed *sets* of partners; `no data` is recognised as the library defines it: identity with NOT_DATA",
+    "node-level round trips: the harness puts the copy in the place of the original and retires the original "
+    "(disconnects it, clears receivers pointing at it), as a user swapping in a re-loaded node would",
+    "the model variant (connection order kept or reversed by __setstate__, value links pushed or assigned) is probed "
+    "on three tiny objects per worker; it selects the Lean model to compare with, the oracle does not know it",
 ]
 ASSUMPTIONS = [
     "Node.run with default flags (execute() / check_readiness=False / fetch_input=False switch the gate off by design)",
@@ -56,13 +78,17 @@ ASSUMPTIONS = [
     "cache itself is C05's subject)",
     "wrapped functions are total here (raising functions are C06's subject)",
     "toggling strict hints on and re-assigning hints are not assignment paths (C03_activate_witness)",
-    "__setstate__ is not a public assignment path",
+    "a round trip is pickle.loads(pickle.dumps(obj)) / cloudpickle.dumps in the same process; whether a round trip "
+    "succeeds at all and what else it preserves is C07's subject - here a failing one must leave the original alone "
+    "and a successful one must not invent values, after which every clause is demanded of the copy",
+    "adversarial values never lie through __class__, __repr__ / __str__ / __format__ or __reduce__ (the library "
+    "formats rejected values into its messages; pickling them is python's business)",
 ]
 EXHAUSTIVE = {"thorough": True}
 EXPLANATION = (
-    "every case is executed on real pyiron_workflow nodes / channels / macros and on the Lean model; after every "
-    "operation all channel values, ordered connection lists, running/failed flags and the log of arguments received by "
-    "the wrapped functions are diffed"
+    "every case is executed on real pyiron_workflow nodes / channels / macros / workflows and on the Lean model; after "
+    "every operation (pickle round trips included) all channel values, ordered connection lists, running/failed flags "
+    "and the log of arguments received by the wrapped functions are diffed"
 )
 
 POOL = list(range(1, 10)) + list(range(101, 106))
@@ -711,7 +737,7 @@ def gen_cases(rng, tier):
         pidx = range(len(prod))
         qidx = range(len(path))
         n_rand, n_bad = 3000, 400
-        ridx = sorted(rng.sample(range(len(rtp)), 4000))
+        ridx = range(len(rtp))
         aidx = range(len(advp))
         n_rrt = 1500
     off = rng.randrange(10_000)
@@ -1114,10 +1140,20 @@ def model_input(case, impl=None):
     for n in nodes:
         lines.append(f"ins {n['id']} " + " ".join(map(str, n["ins"])))
         lines.append(f"outs {n['id']} " + " ".join(map(str, n["outs"])))
+    used = set()
+
+    def walk(x):
+        if isinstance(x, int):
+            used.add(x)
+        elif isinstance(x, (list, tuple)):
+            for y in x:
+                walk(y)
+
+    walk(case["ops"])
     for c in chans:
         if c["hint"] is not None:
             for k in POOL + list(ADV):
-                if not admit(c["hint"], k):
+                if k in used and not admit(c["hint"], k):  # only values that occur in the case matter
                     lines.append(f"reject {c['id']} {k}")
     for a in chans:
         for b in chans:
